@@ -121,6 +121,8 @@ def _valid(kinds, parents, named, decls, current):
             return False
         if named[i] and kinds[i] >= 2:          # only methods and classes have names
             return False
+        if named[i] and i >= SLICE.get("named_scopes", 3):
+            return False
     fix = SLICE.get("fix") or {}
     if "k1" in fix and kinds[0] not in fix["k1"]:
         return False
